@@ -51,6 +51,21 @@ func runHistory(c *core.Ctx, r *core.Rand, o histOpts) {
 	}
 	var hist [][]kmodel.Op
 	for t := 0; t < o.NTx; t++ {
+		if t%6 == 5 {
+			// the application restarts: the file is closed and opened again, the stores declare their indexes again. What
+			// was committed is all there and nothing else is (the next transactions run against the reopened file)
+			before := dumpDb(e)
+			if err := e.Reopen(); err != nil {
+				c.Violationf(o.Prefix+" closing and reopening the database failed", map[string]any{"cfg": o.Cfg.String()}, "%v", err)
+				return
+			}
+			c.Count("database_reopened", 1)
+			c.Eval()
+			if after := dumpDb(e); before.Hash() != after.Hash() {
+				c.Violationf(o.Prefix+" closing and reopening the database (and declaring the indexes again) changed it", map[string]any{"cfg": o.Cfg.String(), "history": tailHist(hist, 4)}, "diff: %v", dump.Diff(before, after, nil, 6))
+			}
+			e.Check(o.Prefix+" after reopening the database", map[string]any{"cfg": o.Cfg.String(), "history": tailHist(hist, 4)})
+		}
 		ops := e.GenTx(r, o.MaxOps, o.Hostile)
 		if o.FanIn && t >= o.NTx-9 {
 			ops = fanInOps(e, t-(o.NTx-9))
